@@ -567,6 +567,9 @@ class J1939_22:
             if buffer_hash not in self._snd_buffer:
                 self.__send_tp_abort(dest_address, src_address, session_num, self.ConnectionAbortReason.RESOURCES, pgn)
                 return
+            if self._snd_buffer[buffer_hash]['dest_address'] == ParameterGroupNumber.Address.GLOBAL:
+                # a broadcast session has no flow control (only a frame "from" the global address matches it)
+                return
             if num_segments == 0:
                 # SAE J1939/22
                 # receiver requests a pause
@@ -616,6 +619,9 @@ class J1939_22:
             buffer_hash   = self._buffer_hash(session_num, dest_address, src_address)
             if buffer_hash not in self._snd_buffer:
                 self.__send_tp_abort(dest_address, src_address, session_num, self.ConnectionAbortReason.RESOURCES, pgn)
+                return
+            if self._snd_buffer[buffer_hash]['dest_address'] == ParameterGroupNumber.Address.GLOBAL:
+                # a broadcast session is not acknowledged (only a frame "from" the global address matches it)
                 return
             # TODO: should we inform the application about the successful transmission?
             # Notify subscribers here to be used for the memory access server to know when to send operation complete
